@@ -5,7 +5,9 @@
 #include "terms.h"
 #include <unordered_map>
 
+#include <chrono>
 namespace irf {
+extern std::chrono::steady_clock::time_point g_deadline; extern bool g_timedOut;
 
 struct Q {
   __int128 n = 0, d = 1;
